@@ -9,7 +9,9 @@ import Tahoe.Mutable.Content
     `tu SEGSIZE OFFSET NEWHEX STARTHEX ENDHEX L1,L2,…`  TransformingUploadable.read for each length → HEX,HEX,…
     `enc K MAXSEG s|m DATALEN OFFSET UPLOADSIZE`  → `SEGSIZE NUMSEGS TAIL STARTING END` (setup_encoding_parameters;
        whole-file publish: OFFSET = 0, UPLOADSIZE = DATALEN)
-    `rng SEGSIZE OLDSIZE OFF LEN` → `START END` (_do_update_update) -/
+    `rng SEGSIZE OLDSIZE OFF LEN` → `START END` (_do_update_update)
+    `dec SEGSIZE K SEGNUM CONTENTHEX` → `JOINEDLEN HEX` (Retrieve._decode_blocks: length of the decoder's joined
+       output, and the segment after the size_to_use cut) -/
 open Tahoe.Drv Tahoe.Mutable.Content
 
 def showErr : Err → String
@@ -54,7 +56,7 @@ def runHist (cfg : Cfg) : Option Version → List String → List String → Opt
       match st with
       | none => runHist cfg st ("err:assert" :: acc) rest
       | some v =>
-        match read v off size? with
+        match read cfg.k v off size? with
         | .ok b => runHist cfg st (hexOfBytes b :: acc) rest
         | .error e => runHist cfg st (showErr e :: acc) rest
 
@@ -90,6 +92,12 @@ def handle : List String → String
       if seg = 0 then "bad-op" else
       let r := updateRange size seg off len
       s!"{r.1} {r.2}"
+    | _, _, _, _ => "bad-op"
+  | ["dec", seg, k, sn, h] =>
+    match seg.toNat?, k.toNat?, sn.toNat?, bytesOfHex h with
+    | some seg, some k, some sn, some c =>
+      if seg = 0 ∨ k = 0 then "bad-op" else
+      s!"{(decodedJoined c seg k sn).length} {hexOfBytes (decodeBlocks c seg k sn)}"
     | _, _, _, _ => "bad-op"
   | _ => "bad-op"
 
